@@ -241,6 +241,7 @@ def handleSimOracle (st : OracleSt) (prop : String) (opToks out : List String) :
           | "C08" => oracleC08 o kind log cur
           | "C09" => oracleC09 o kind log cur
           | "C16" => oracleC16 o kind log cur
+          | "C17" => oracleC17sim o kind log cur
           | _ => "bad-op"
         ({ o := o.advance kind log cur, nops := st.nops + 1 }, v)
 
